@@ -97,7 +97,7 @@ func dispatcherTimeline(t0 time.Time) string {
 	return b.String()
 }
 
-var rec = ev.For("C18", "rapid-drawn histories: 2-32 concurrent callers x 1-2(3) sequential Read/Browse/Write requests with unique markers over one client channel (opcua.Client with request id seed 0 or RandomRequestID, or raw uasc channel with RequestIDSeed 0 / random / next to the 2^32 wrap) against a scripted server whose per-request behaviour is drawn before the run (ok / duplicate / drop / late / ServiceFault / bad service result / other response type; delay 0-100 ms; after k other responses; optional unsolicited response with an unused request id that collides in the low 16 bits, in bit 31, with 0 or with an already answered id); non-trivial = at least 4 callers and (realised response order differs from arrival order or a drop / duplicate / mistyped response occurred); distinct by hash of the case")
+var rec = ev.For("C18", "rapid-drawn histories: 2-32 concurrent callers x 1-2(3) sequential Read/Browse/Write requests with unique markers over one client channel (opcua.Client with request id seed 0 or RandomRequestID, or raw uasc channel with RequestIDSeed 0 / random / next to the 2^32 wrap) against a scripted server whose per-request behaviour is drawn before the run (ok / duplicate / drop / late / ServiceFault / bad service result / other response type / a request structure (the request echoed, a ReadRequest, a CloseSessionRequest) sent as the answer; delay 0-100 ms; after k other responses; optional unsolicited response with an unused request id that collides in the low 16 bits, in bit 31, with 0 or with an already answered id); one case in ten is a 'wrap chain': 2-3 callers with chains of 1-4 sequential, mostly abandoned (late / dropped) requests over a raw channel whose id counter wraps among them; non-trivial = (at least 4 callers and (realised response order differs from arrival order or a drop / duplicate / mistyped response occurred)) or (a wrap chain in which a drop / late / duplicate response occurred); distinct by hash of the case")
 
 // ---------------------------------------------------------------------------
 // case
@@ -122,7 +122,41 @@ type Case struct {
 
 var faultStatuses = []ua.StatusCode{ua.StatusBadNodeIDUnknown, ua.StatusBadTooManyOperations, ua.StatusBadUserAccessDenied, ua.StatusBadInternalError}
 
+// genWrapChain: few callers with chains of sequential requests over a raw
+// channel whose request id counter wraps somewhere among them; the requests are
+// mostly abandoned (answered after the timeout, or never), so that the request
+// sent right after an abandoned one is pending when the late answer arrives
+// (added after seeded change C18-A: two consecutive requests got id 1).
+func genWrapChain(t *rapid.T) Case {
+	c := Case{Mode: "raw", Seed: "wrap"}
+	c.TimeoutMs = rapid.SampledFrom([]int{450, 500, 600}).Draw(t, "timeoutMs")
+	n := rapid.IntRange(2, 3).Draw(t, "n")
+	total := 0
+	for i := 0; i < n; i++ {
+		l := rapid.IntRange(1, 4).Draw(t, "seqlen")
+		if i == 0 && l < 2 {
+			l = 2
+		}
+		var chain []Req
+		for k := 0; k < l; k++ {
+			r := Req{Kind: rapid.SampledFrom([]string{"read", "browse", "write"}).Draw(t, "kind")}
+			r.Action = rapid.SampledFrom([]string{"late", "late", "drop", "drop", "ok", "dup"}).Draw(t, "action")
+			if rapid.IntRange(0, 2).Draw(t, "when") == 0 {
+				r.DelayMs = rapid.IntRange(1, 30).Draw(t, "delay")
+			}
+			chain = append(chain, r)
+		}
+		total += l
+		c.Callers = append(c.Callers, chain)
+	}
+	c.SeedVal = uint32(0xFFFFFFFF) - uint32(rapid.IntRange(0, total).Draw(t, "wrapAt"))
+	return c
+}
+
 func genCase(t *rapid.T) Case {
+	if rapid.IntRange(0, 9).Draw(t, "wrapChain") == 0 {
+		return genWrapChain(t)
+	}
 	var c Case
 	c.Mode = rapid.SampledFrom([]string{"client", "client", "raw"}).Draw(t, "mode")
 	if c.Mode == "client" {
@@ -195,6 +229,8 @@ func genReq(t *rapid.T, n int) Req {
 				others = append(others, k)
 			}
 		}
+		// a service message that is no response at all: the request itself, other requests
+		others = append(others, "req-echo", "req-read", "req-closesession")
 		r.As = rapid.SampledFrom(others).Draw(t, "as")
 	}
 	switch rapid.IntRange(0, 5).Draw(t, "when") {
@@ -323,6 +359,33 @@ func (w *world) respond(conn *script.Conn, reqID uint32, resp ua.Response) {
 	}
 }
 
+// respondWithRequest answers the pending request id with a well-formed service
+// message that is not a response at all: the request echoed back, or another
+// request structure (added after seeded change C18-B).
+func (w *world) respondWithRequest(conn *script.Conn, reqID uint32, req ua.Request, as string, j int) {
+	var msg any = req
+	switch as {
+	case "req-read":
+		msg = &ua.ReadRequest{RequestHeader: req.Header(), NodesToRead: []*ua.ReadValueID{{NodeID: ua.NewStringNodeID(1, marker(j))}}}
+	case "req-closesession":
+		msg = &ua.CloseSessionRequest{RequestHeader: req.Header()}
+	}
+	w.mu.Lock()
+	w.serial++
+	s := w.serial
+	w.sent = append(w.sent, sentRec{J: j, Serial: s, Kind: "resp", At: time.Now(), ReqID: reqID})
+	w.mu.Unlock()
+	err := conn.SC.SendMsgWithContext(context.Background(), nil, reqID, msg)
+	now := time.Now()
+	w.mu.Lock()
+	defer w.mu.Unlock()
+	for i := range w.sent {
+		if w.sent[i].Serial == s && err == nil {
+			w.sent[i].Done = now
+		}
+	}
+}
+
 func (w *world) sentCount() int {
 	w.mu.Lock()
 	defer w.mu.Unlock()
@@ -404,7 +467,11 @@ func (w *world) handle(conn *script.Conn, req ua.Request, reqID uint32) bool {
 		case "badstatus":
 			w.respond(conn, reqID, w.build(conn, req, r.Kind, ua.StatusCode(r.Status), j, "resp", reqID))
 		case "mistype":
-			w.respond(conn, reqID, w.build(conn, req, r.As, ua.StatusOK, j, "resp", reqID))
+			if strings.HasPrefix(r.As, "req-") {
+				w.respondWithRequest(conn, reqID, req, r.As, j)
+			} else {
+				w.respond(conn, reqID, w.build(conn, req, r.As, ua.StatusOK, j, "resp", reqID))
+			}
 		}
 		if r.Action != "drop" {
 			w.mu.Lock()
@@ -795,7 +862,11 @@ func execute(c Case) (o outcome) {
 			special = true
 		}
 	}
-	o.Nontrivial = n >= 4 && (permuted || special)
+	wrapChain := n < 4 && c.Seed == "wrap" && len(reqs) > n
+	if wrapChain {
+		o.Classes = append(o.Classes, "wrap-chain(few callers, sequential abandoned requests across the id wrap)")
+	}
+	o.Nontrivial = (n >= 4 && (permuted || special)) || (wrapChain && (special || o.Counts["req:late"] > 0))
 
 	// ----- oracle
 	kindOf := map[int]sentRec{}
